@@ -362,7 +362,9 @@ Definition mem_load16 (m : dmem) (a : N) : option N :=
 (* mapping a file: the offset must be page-aligned.  (Whether the range lies inside the file is not checked by
    the code; touching a page beyond the end of the file is the frontend's fault and the cases avoid it.) *)
 Definition PAGE : N := 4096.
-Definition mmap_ok (m : dmem) (off size file : N) : bool := off mod PAGE =? 0.
+Definition mmap_ok (m : dmem) (off size file : N) : bool :=
+  (* the kernel also refuses a length beyond the address space and a file range that does not fit a signed offset *)
+  (off mod PAGE =? 0) && (size <? 2 ^ 47) && (off + size <? 2 ^ 63).
 (* GuestRegionCollection::from_regions: ascending by start address, no two overlapping *)
 Fixpoint regs_sorted (l : list region) : bool :=
   match l with
@@ -420,7 +422,7 @@ Definition with_logs (m : dmem) (regs : list region) (log : option (N * N * N)) 
 Definition h_set_log_base (s : dstate) (size off file : N) : dstate * dres :=
   let m := d_mem s in
   if (2 ^ 63 <=? off) || (2 ^ 63 <=? size) then (s, DErr)
-  else if (size =? 0) || negb (off mod PAGE =? 0) then (s, DErr)
+  else if (size =? 0) || negb (off mod PAGE =? 0) || negb (size <? 2 ^ 47) || negb (off + size <? 2 ^ 63) then (s, DErr)
   else if negb (forallb (log_fits size) (m_regs m)) then (s, DErr)
   else (set_mem s (with_logs m (map (fun r => {| rg_gpa := rg_gpa r; rg_size := rg_size r; rg_file := rg_file r; rg_off := rg_off r;
                                                  rg_log := Some (file, off, size) |}) (m_regs m)) (Some (file, off, size))), DOk []).
@@ -714,6 +716,7 @@ Definition d_apply (s : dstate) (kind : string) (a : list N) (data : list N) (rl
   else if String.eqb kind "read_call" then
     let s0 := hold s q in
     (set_files s0 (set_pending (d_pending s0) q 0) (d_fe_holds s0) (d_next_inst s0), VN (pending_of s0 q))
+  else if String.eqb kind "panics" then (s, VN 0)      (* the model has no panics: every handler is a total function *)
   else if String.eqb kind "backend_log" then
     let m := d_mem s in (s, VL [VN (m_upd m); VL (map VN (m_ackf m)); VL (map VN (m_evlog m)); VN 0])
   else (s, VS "model-unknown-step").
